@@ -16,6 +16,30 @@ func genC14(t *rapid.T) Case {
 	c.Workers = rapid.SampledFrom([]int{0, 0, 1, 1, 3, 8}).Draw(t, "workers")
 	c.Ops = GenTxOps(t, TxGenOpts{MinOps: 5, MaxOps: 80, Weights: map[string]int{
 		"begin": 6, "set": 14, "del": 4, "commit": 6, "rollback": 3, "gc": 1}})
+	// now and then a batch of more than a thousand versions becomes garbage at once: a transaction
+	// writes that many keys (or one key that often) and ends, or that many overwrites are pending at a reopen
+	if rapid.IntRange(0, 15).Draw(t, "bigBatch") == 0 {
+		n := rapid.SampledFrom([]int{1001, 1500, 2500}).Draw(t, "batch")
+		burst := Op{K: "txburst", N: n, Len: rapid.SampledFrom([]int{0, 60}).Draw(t, "nameLen")}
+		if rapid.Bool().Draw(t, "sameKey") {
+			burst.Via = "same"
+		}
+		var frag []Op
+		switch rapid.IntRange(0, 2).Draw(t, "batchKind") {
+		case 0:
+			burst.Last = true
+			frag = []Op{{K: "begin", Lvl: rapid.IntRange(0, 3).Draw(t, "batchLvl")}, burst, {K: "rollback", Last: true}}
+		case 1:
+			burst.Last = true
+			burst.Via = "same"
+			frag = []Op{{K: "begin", Lvl: rapid.IntRange(0, 1).Draw(t, "batchLvl")}, burst, {K: "commit", Last: true}}
+		default:
+			burst.Via = "same"
+			frag = []Op{burst, {K: "reopen"}}
+		}
+		at := rapid.IntRange(0, len(c.Ops)).Draw(t, "batchAt")
+		c.Ops = append(c.Ops[:at:at], append(frag, c.Ops[at:]...)...)
+	}
 	return c
 }
 
@@ -57,6 +81,9 @@ func genC17(t *rapid.T) Case {
 			op.N = rapid.IntRange(30, 130).Draw(t, "n")
 		case "delburst":
 			op.Key = rapid.IntRange(0, 5).Draw(t, "which")
+			if rapid.Bool().Draw(t, "partial") {
+				op.N = rapid.SampledFrom([]int{1, 5, 10, 30, 60}).Draw(t, "firstN")
+			}
 		case "set", "del":
 			op.Key = rapid.IntRange(0, 3).Draw(t, "key")
 			op.Len = rapid.IntRange(0, 10).Draw(t, "len")
